@@ -97,6 +97,8 @@ type world struct {
 	d    *fakescd.Daemon
 	key  *rsa.PrivateKey
 	cfgs map[string]*config.Config
+	// for behaviours whose READKEY answer is cut short: where
+	truncateAt int
 }
 
 func newWorld() *world {
@@ -231,7 +233,7 @@ func guard(fn func() error) (err error) {
 // one behaviour on the real code
 func (w *world) run(b *beh) (tr []fakescd.Event, asked int, out []outRec, leaked int) {
 	k := b.K
-	w.d.Arm(fakescd.Knobs{Greeting: k.Greeting, Learn: k.Learn, PinInq: k.PinInq, Tries0: k.Tries0, ReadKey: k.ReadKey, Signs: k.Signs})
+	w.d.Arm(fakescd.Knobs{Greeting: k.Greeting, Learn: k.Learn, PinInq: k.PinInq, Tries0: k.Tries0, ReadKey: k.ReadKey, Signs: k.Signs, TruncateAt: w.truncateAt})
 	cfg := w.cfg(k.Serial, k.Pin, k.KeyID)
 	var pg passprompt.PasswordGetter
 	var g *getter
@@ -313,7 +315,27 @@ func Replay(args []string) {
 	}
 	nlog := 0
 	stride := len(behs)/400 + 1
+	ntrunc := 0
 	for bi, b := range behs {
+		if b.K.ReadKey == "truncated" && len(b.Out) == 2 && b.Out[1].Call == "getkey" {
+			// the first few such behaviours are run with the key cut at EVERY offset, the others at one seeded offset
+			ntrunc++
+			if ntrunc <= 3 {
+				for n := 1; n < w.d.SexpLen(); n++ {
+					w.truncateAt = n
+					_, _, out, _ := w.run(b)
+					last := out[len(out)-1]
+					r.Eval(true)
+					if last.Call != "getkey" || last.Result != "invalid-key" {
+						r.Fail(map[string]string{"engine": "scd", "kind": "truncated-key"}, map[string]any{"behaviour": b, "offset": n},
+							"scdaemon session: READKEY answer cut after %d of %d bytes: GetKey returned %s (expected an error about an invalid key)", n, w.d.SexpLen(), last.Result)
+						break
+					}
+				}
+				r.Count("truncation_offsets", w.d.SexpLen()-1)
+			}
+			w.truncateAt = 1 + (bi*37)%(w.d.SexpLen()-1)
+		}
 		tr, asked, out, leaked := w.run(b)
 		r.Eval(len(b.Tr) > 6)
 		r.Count("open_"+b.Out[0].Result, 1)
